@@ -2,7 +2,9 @@
 package c03
 
 import (
+	"bytes"
 	"fmt"
+	"sync"
 	"testing"
 
 	"golang.org/x/mod/sumdb/tlog"
@@ -606,4 +608,80 @@ func bitsLen(x int64) int {
 
 func init() {
 	subs = append(subs, pbt.New("huge", 15000, 40000, genHuge, checkHuge))
+	subs = append(subs, pbt.New("parallel", 60, 400, genParallel, checkParallel))
+}
+
+// ---- several logs at once
+
+// Independent logs built and proved at the same time in several goroutines: "for every log" does not stop
+// holding because another log is being processed (package-level scratch state would show here, and, in the
+// race build of C14, as a data race).
+type parallelCase struct {
+	Seed    int64
+	Workers int
+	Records int
+}
+
+func genParallel(t *rapid.T) parallelCase {
+	return parallelCase{Seed: int64(rapid.IntRange(0, 1000).Draw(t, "seed")), Workers: rapid.IntRange(2, 8).Draw(t, "workers"), Records: rapid.IntRange(2, 24).Draw(t, "records")}
+}
+
+func checkParallel(c parallelCase) pbt.Result {
+	r := pbt.Result{}
+	if c.Workers < 1 || c.Workers > 16 || c.Records < 1 || c.Records > 64 || c.Seed < 0 {
+		r.Skip = true
+		return r
+	}
+	r.NonTrivial = c.Workers >= 2 && c.Records >= 3
+	fails := make([]*pbt.Failure, c.Workers)
+	var wg sync.WaitGroup
+	for w := 0; w < c.Workers; w++ {
+		wg.Add(1)
+		go func(w int) {
+			defer wg.Done()
+			defer func() {
+				if e := recover(); e != nil {
+					fails[w] = pbt.Failf("panic-parallel", "worker %d panicked: %v", w, e)
+				}
+			}()
+			seed := c.Seed*31 + int64(w)
+			tree := merkleref.NewTree()
+			var store []tlog.Hash
+			for i := 0; i < c.Records; i++ {
+				// large records keep the workers inside the hash function at the same time
+				data := append(merkleref.RecordData(seed, int64(i)), bytes.Repeat([]byte{byte(w), byte(i)}, 4096)...)
+				tree.Append(data)
+				hs, err := tlog.StoredHashes(int64(i), data, tlogutil.Reader(toRef(store)))
+				if err != nil {
+					fails[w] = pbt.Failf("storedhashes-parallel", "worker %d: StoredHashes(%d): %v", w, i, err)
+					return
+				}
+				store = append(store, hs...)
+				if got := tlog.RecordHash(data); merkleref.Hash(got) != merkleref.LeafHash(data) {
+					fails[w] = pbt.Failf("leaf-hash-parallel", "worker %d: RecordHash of record %d is not the RFC 6962 leaf hash while %d other logs are being built", w, i, c.Workers-1)
+					return
+				}
+			}
+			t := int64(c.Records)
+			for n := int64(0); n < t; n++ {
+				p, err := tlog.ProveRecord(t, n, tlogutil.Reader(toRef(store)))
+				if err != nil || !eqProof(p, tree.Path(n, t)) {
+					fails[w] = pbt.Failf("proverecord-parallel", "worker %d: ProveRecord(%d,%d) differs from the RFC 6962 audit path while %d other logs are being built (err=%v)", w, t, n, c.Workers-1, err)
+					return
+				}
+				if err := tlog.CheckRecord(p, t, tlog.Hash(tree.MTH(0, t)), n, tlog.Hash(merkleref.LeafHash(tree.Leaves[n]))); err != nil {
+					fails[w] = pbt.Failf("complete-record-parallel", "worker %d: CheckRecord rejects the genuine proof for t=%d n=%d: %v", w, t, n, err)
+					return
+				}
+			}
+		}(w)
+	}
+	wg.Wait()
+	for _, f := range fails {
+		if f != nil {
+			r.Fail = f
+			return r
+		}
+	}
+	return r
 }
